@@ -566,6 +566,7 @@ def run_faults(ctx, only=None):
                 B = rng.choice([None, None, 5, 16])
                 _set_buffers(B)
                 for op in ("save", "save", "delete"):
+                    twice = False
                     if op == "save":
                         tags = cls()
                         for _ in range(rng.randrange(0, 3)):
@@ -583,6 +584,10 @@ def run_faults(ctx, only=None):
                         def go(f, how=how):
                             delete_fn(f) if how == "function" else cls().delete(f)
                         margs = dict(B=B)
+                        # _WaveID3.delete is a loadfile method around the loadfile function: verify_fileobj twice
+                        twice = (dname == "wave" and how == "method")
+                    mop = "deletem" if (op == "delete" and twice) else op
+                    nverify = 4 if (op == "delete" and twice) else 2
                     base = dict(fmt=dname, op=op, tagged=tagged, data=hx(data), buffer=B, **({"vmaj": vmaj, "pad": pad, "frames_len": len(frames)} if op == "save" else {}))
                     ref = FaultFile(data)
                     k0, r0 = timed(lambda: go(ref), 20)
@@ -594,7 +599,7 @@ def run_faults(ctx, only=None):
                     n = ref.calls
                     growth = len(refb) - len(data)
                     ctx.hist["iffm:%s:%s" % (op, "tagged" if tagged else "untagged")] += 1
-                    reqs.append((model_line(dname, op, data, "", **margs), answer(k0, r0, ref), dict(base, env="clean")))
+                    reqs.append((model_line(dname, mop, data, "", **margs), answer(k0, r0, ref), dict(base, env="clean")))
                     # --- capacities: every value 0 .. growth (C19)
                     if growth > 0:
                         caps = range(growth + 1) if growth <= 70 else sorted(set([0, 1, 2, growth - 1, growth] + [rng.randrange(growth) for _ in range(30)]))
@@ -626,7 +631,7 @@ def run_faults(ctx, only=None):
                                                       "file as it was nor the file with an empty ID3 chunk", case)
                                     else:
                                         ctx.hist["iffm:enospc-after-chunk-created"] += 1
-                                reqs.append((model_line(dname, op, data, " cap=%d leak=%d" % (len(data) + r, leak), **margs), answer(k, res, f), case))
+                                reqs.append((model_line(dname, mop, data, " cap=%d leak=%d" % (len(data) + r, leak), **margs), answer(k, res, f), case))
                     # --- one I/O fault at every call index (C06)
                     idx = range(n) if n <= 90 else sorted(set(list(range(30)) + list(range(n - 30, n)) + [rng.randrange(n) for _ in range(30)]))
                     for i in idx:
@@ -640,9 +645,9 @@ def run_faults(ctx, only=None):
                         if k == "ok":
                             if f.getvalue() != refb:
                                 ctx.violation("iff:%s:%s:undetected-fault" % (dname, op), "returned normally after an I/O error with an incomplete file", case)
-                        elif not isinstance(res, MutagenError) and not (isinstance(res, ValueError) and i < 2):
+                        elif not isinstance(res, MutagenError) and not (isinstance(res, ValueError) and i < nverify):
                             ctx.violation("iff:%s:%s:fault-raises-%s" % (dname, op, type(res).__name__), "I/O error at call %d (%s) surfaced as %r" % (i, ref.log[i], res), case)
-                        reqs.append((model_line(dname, op, data, " fail=%d:io" % i, **margs), answer(k, res, f), case))
+                        reqs.append((model_line(dname, mop, data, " fail=%d:io" % i, **margs), answer(k, res, f), case))
     finally:
         _set_buffers(None)
     answers = ask_model(ctx, [r[0] for r in reqs]) if reqs else None
